@@ -1032,6 +1032,131 @@ def regenerate_setters(ast=None):
     return {"T7": status}
 
 
+# ------------------------------------------------------------------------------------ T8
+# the line-framing state functions: guarded read, `switch (self->current_char)`, arms made of field
+# assignments, `self->length++`, calls of void helpers and early `break`s under a condition:
+# Gen/Readers.lean.  `Proofs/Readers.lean` proves the model's functions equal to them.
+
+GEN_READERS = os.path.join(lib.LEAN, "CatVerif/Gen/Readers.lean")
+EXPECTED_READERS = os.path.join(lib.LEAN, "CatVerif/Gen/Readers.expected.lean")
+READERS = ["error_state", "process_idle_state", "parse_prefix", "parse_command", "wait_read_acknowledge", "wait_test_acknowledge"]
+READER_SIG = {"process_idle_state": "(D : Desc) (s : St) (i : SvcIn)"}
+VOID_CALL = {"ack_error": "ackError D s", "ack_ok": "ackOk D s", "prepare_parse_command": "prepareParseCommand D s",
+             "prepare_search_command": "prepareSearchCommand s", "start_processing_format_test_args": "startFormatTest D s {f}"}
+
+
+def _cond(c):
+    c = strip(c)
+    if c.get("kind") == "BinaryOperator" and c.get("opcode") in ("==", "!="):
+        lhs, rhs = strip(c["inner"][0]), strip(c["inner"][1])
+        if not (rhs.get("kind") == "IntegerLiteral" and rhs.get("value") == "0"):
+            raise Unrecognised("T8: comparison with something other than 0")
+        path = _member_path(lhs)
+        if path in FIELD and FIELD[path][1] == "nat":
+            return "s.%s %s 0" % (FIELD[path][0], c["opcode"])
+        if lhs.get("kind") == "CallExpr" and strip(lhs["inner"][0]).get("referencedDecl", {}).get("name") == "is_valid_cmd_name_char" \
+                and _member_path(lhs["inner"][1]) == "current_char" and c["opcode"] == "!=":
+            return "isNameChar s.currentChar"
+    raise Unrecognised("T8: unrecognised condition")
+
+
+def _ends_with_break(sts):
+    return bool(sts) and sts[-1].get("kind") == "BreakStmt"
+
+
+def _arm_expr(sts, ind):
+    """statements of one arm (up to its break) -> Lean expression of type St over the variable s"""
+    sts = [x for x in sts if not is_noise(x)]
+    if not sts or sts[0].get("kind") == "BreakStmt":
+        return "s"
+    st, rest = sts[0], sts[1:]
+    e = strip(st)
+    k = st.get("kind")
+    if k == "IfStmt":
+        if len(st["inner"]) != 2:
+            raise Unrecognised("T8: if with else")
+        th = st["inner"][1].get("inner", []) if st["inner"][1].get("kind") == "CompoundStmt" else [st["inner"][1]]
+        if not _ends_with_break(th):
+            raise Unrecognised("T8: conditional block without break")
+        return "(if %s then %s\n%selse %s)" % (_cond(st["inner"][0]), _arm_expr(th, ind + "  "), ind, _arm_expr(rest, ind + "  "))
+    if e.get("kind") == "BinaryOperator" and e.get("opcode") == "=":
+        path = _member_path(e["inner"][0])
+        if path not in FIELD:
+            raise Unrecognised("T8: assignment to unknown field %s" % path)
+        f, kind = FIELD[path]
+        return "(let s : St := { s with %s := %s }\n%s%s)" % (f, _rhs(e["inner"][1], kind, [], {}), ind, _arm_expr(rest, ind))
+    if e.get("kind") == "UnaryOperator" and e.get("opcode") == "++":
+        path = _member_path(e["inner"][0])
+        if path not in FIELD or FIELD[path][1] != "nat":
+            raise Unrecognised("T8: ++ of a non-counter")
+        f = FIELD[path][0]
+        return "(let s : St := { s with %s := s.%s + 1 }\n%s%s)" % (f, f, ind, _arm_expr(rest, ind))
+    if e.get("kind") == "CallExpr":
+        name, fsm = _call_of(e)
+        if name not in VOID_CALL:
+            raise Unrecognised("T8: call of %s" % name)
+        term = VOID_CALL[name].replace("{f}", fsm or "?")
+        if "?" in term:
+            raise Unrecognised("T8: missing fsm argument")
+        return "(let s : St := %s\n%s%s)" % (term, ind, _arm_expr(rest, ind))
+    raise Unrecognised("T8: unrecognised statement (%s)" % k)
+
+
+def t8(ast):
+    defs = []
+    for name in READERS:
+        _, body = find_fn(ast, name)
+        if not _guarded_read_first(body):
+            raise Unrecognised("T8: %s does not start with the guarded read" % name)
+        sts = [x for x in body.get("inner", []) if not is_noise(x)]
+        if len(sts) != 3 or sts[1].get("kind") != "SwitchStmt" or sts[2].get("kind") != "ReturnStmt":
+            raise Unrecognised("T8: %s is not read / switch / return" % name)
+        if _member_path(sts[1]["inner"][0]) != "current_char":
+            raise Unrecognised("T8: %s does not switch on current_char" % name)
+        if strip(sts[2]["inner"][0]).get("referencedDecl", {}).get("name") != "CAT_STATUS_BUSY":
+            raise Unrecognised("T8: %s does not return BUSY" % name)
+        arms = switch_arms(sts[1], None, None)
+        chain, default = [], None
+        for labels, stmts in arms:
+            if "default" in labels:
+                if len(labels) != 1:
+                    raise Unrecognised("T8: default shares an arm")
+                default = _arm_expr(stmts, "      ")
+            else:
+                cond = " || ".join("s.currentChar == %d" % int(l) for l in labels)
+                chain.append((cond, _arm_expr(stmts, "      ")))
+        if default is None:
+            default = "s"
+        body_txt = ""
+        for cond, ex in chain:
+            body_txt += "    if %s then %s\n    else " % (cond, ex)
+        body_txt += default
+        defs.append("/-- `%s` of src/cat.c -/\ndef %s (D : Desc) (s : St) (i : SvcIn) : St × Int :=\n"
+                    "  let (s, got) := readCmdChar s i\n  if !got then (s, Gen.CAT_STATUS_OK)\n  else\n  let s : St :=\n%s\n  (s, Gen.CAT_STATUS_BUSY)"
+                    % (name, name, body_txt))
+    hdr = ("/-\n  GENERATED by tools/translate.py from the character-dispatching state functions of src/cat.c (T8). Do not edit.\n"
+           "  `Proofs/Readers.lean` proves the model's functions equal to these.\n-/\n"
+           "import CatVerif.Model.Fsm\nnamespace Cat.Gen\nopen Cat St\nset_option linter.unusedVariables false\n\n")
+    return hdr + "\n\n".join(defs) + "\n\nend Cat.Gen\n"
+
+
+def regenerate_readers(ast=None):
+    try:
+        txt = t8(ast or load_ast())
+        status = "translated"
+    except Exception as ex:
+        if not os.path.exists(EXPECTED_READERS):
+            return {"T8": "failed: " + repr(ex)[:200]}
+        txt = open(EXPECTED_READERS).read()
+        status = "fallback to expected text: " + repr(ex)[:200]
+    with lib.Lock("gen"):
+        old = open(GEN_READERS).read() if os.path.exists(GEN_READERS) else ""
+        if old != txt:
+            with open(GEN_READERS, "w") as f:
+                f.write(txt)
+    return {"T8": status}
+
+
 def expected_defs():
     """name -> definition text from the committed expected copy (for fallbacks)"""
     txt = open(EXPECTED).read()
@@ -1092,6 +1217,7 @@ def regenerate():
     exp = open(EXPECTED).read() if os.path.exists(EXPECTED) else ""
     rep.update(regenerate_dispatch())
     rep.update(regenerate_setters())
+    rep.update(regenerate_readers())
     fall = {k: v for k, v in rep.items() if not v.startswith("translated")}
     return {"status": "ok", "changed_vs_expected": txt != exp, "fallbacks": fall, "items": len(rep),
             "sha": hashlib.sha256(txt.encode()).hexdigest()[:12]}
